@@ -16,7 +16,8 @@ DAYS = [b'2024-01-01', b'2024-01-02', b'2023-12-31', b'2024-01-10']
 MISC = [b'rel', b'a', b'A', b'a-b', b'a.b', b'a b', b'\xc3\xa9', b'\xff', b'~', b'2024-01-02.', b'2024-01-02.1.1',
         b'2024-01-02x', b'2024-01-0', b'z', b'\x7f', b'\x80', b'\x01', b'tmp', b'attic2', b'atti', b'2024-01-02.01']
 HIDDEN = [b'.hidden', b'.2024-01-02.1', b'..x', b'.attic', b'.r']
-LOCKS = ['absent', 'target', 'target', 'target', 'target_nonl', 'target_two', 'target_nul', 'target_nul_after', 'stale',
+SIG_RESPELLED = 'B-lists-lock-target-spelled-differently'
+LOCKS = ['absent', 'target', 'target', 'target', 'canonical', 'target_nonl', 'target_two', 'target_nul', 'target_nul_after', 'stale',
          'respelled', 'respelled2', 'empty', 'nl_only', 'dirlock', 'nameonly']
 SPELL = ['abs', 'abs', 'slash', 'dslash', 'rel', 'dotrel']
 
@@ -62,7 +63,7 @@ def gen_case(rng):
     names = list(ents)
     lock = rng.choice(LOCKS)
     target = None
-    if names and lock.startswith('target') or lock in ('respelled', 'respelled2', 'nameonly'):
+    if names and lock.startswith('target') or lock in ('respelled', 'respelled2', 'nameonly', 'canonical'):
         # mostly a listed directory, sometimes anything
         dirs = [x for x in names if ents[x] == 'dir' and not x.startswith(b'.') and x != b'attic']
         pool = dirs if (dirs and rng.random() < 0.8) else names
@@ -72,7 +73,7 @@ def gen_case(rng):
             'lock': lock, 'target': None if target is None else target.hex()}
 
 
-def lock_bytes(case, rootb):
+def lock_bytes(case, rootb, realroot=None):
     k = case['lock']
     t = bytes.fromhex(case['target']) if case.get('target') else b'2024-01-02.1'
     p = rootb + b'/' + t
@@ -80,6 +81,7 @@ def lock_bytes(case, rootb):
         return None
     return {
         'target': p + b'\n',
+        'canonical': (realroot or rootb) + b'/' + t + b'\n',   # what `robsd -r` stores: the readlink -f path
         'target_nonl': p,
         'target_two': p + b'\nsecond line\n' + rootb + b'/2024-01-01\n',
         'target_nul': rootb + b'/' + t[:1] + b'\x00' + t[1:] + b'\n',
@@ -128,7 +130,7 @@ def make_fixture(case, d):
         rs = 'r'
     else:
         rs = './r'
-    lb = lock_bytes(case, rs.encode())
+    lb = lock_bytes(case, rs.encode(), os.path.realpath(root).encode())
     if case['lock'] == 'dirlock':
         os.mkdir(os.path.join(root, '.running'))
     elif lb is not None:
@@ -150,6 +152,21 @@ def run_one(impl, preload, work, idx, case):
         if unknown:
             env['LD_PRELOAD'] = preload
             env['IV_DTYPE_UNKNOWN_FILE'] = os.path.join(d, 'unknown')
+        # which listed directory the lock file denotes (by identity, not by spelling): its printed path
+        named = None
+        if lb is not None:
+            c0 = lb.split(b'\x00', 1)[0]
+            if b'\n' in c0:
+                first = c0.split(b'\n', 1)[0]
+                named = first
+                tgt = first if first.startswith(b'/') else os.path.join(d.encode(), first)
+                try:
+                    for n, t in ents:
+                        if t == 'D' and os.path.samefile(os.path.join(rb, n), tgt):
+                            named = rs.encode() + b'/' + n
+                            break
+                except OSError:
+                    pass
         obs = []
         for B in (False, True):
             try:
@@ -159,7 +176,7 @@ def run_one(impl, preload, work, idx, case):
                 obs.append((r.returncode, r.stdout, r.stderr))
             except subprocess.TimeoutExpired:
                 obs.append((-999, b'', b'timeout'))
-        return {'root': rs.encode(), 'ents': ents, 'lock': lb, 'obs': obs}
+        return {'root': rs.encode(), 'ents': ents, 'lock': lb, 'obs': obs, 'named': named}
     finally:
         shutil.rmtree(d, ignore_errors=True)
 
@@ -168,7 +185,7 @@ def load_corpus():
     return [json.load(open(p)) for p in sorted(glob.glob(os.path.join(common.VERIF, 'corpus', 'C15', '*.json')))]
 
 
-def classify(fx, B, rc, out, bd):
+def classify(fx, B, rc, out, bd, bd_literal=None):
     """a stable name for the defect class; the verdict itself comes from the extracted oracle"""
     if rc != 0:
         return 'nonzero-exit'
@@ -185,7 +202,7 @@ def classify(fx, B, rc, out, bd):
                 return 'lists-unknown-path'
             n, t = types[p]
             if B and p == bd:
-                return 'B-lists-lock-target'
+                return 'B-lists-lock-target' if bd == bd_literal else SIG_RESPELLED
             if n.startswith(b'.'):
                 return 'lists-hidden-entry'
             if p == keep:
@@ -200,7 +217,7 @@ def classify(fx, B, rc, out, bd):
 
 def evaluate(ctx, cases, res, impl=None):
     impl = impl or ctx.build_impl()
-    drv = ctx.build_driver('iv')
+    drv = iv_common.build_iv_driver(ctx)
     preload = iv_common.build_preload(ctx)
     if 'LD_PRELOAD tools/iv_dtype_preload.c (DT_UNKNOWN answers of readdir)' not in ctx.shims_used:
         ctx.shims_used.append('LD_PRELOAD tools/iv_dtype_preload.c (DT_UNKNOWN answers of readdir)')
@@ -217,7 +234,8 @@ def evaluate(ctx, cases, res, impl=None):
         for B, (rc, out, err) in zip((False, True), fx['obs']):
             b = '1' if B else '0'
             qs.append(' '.join(['ls', hexs(root), hexs(keep), b, lock] + et))
-            qs.append(' '.join(['lsok', hexs(root), hexs(keep), b, lock, str(rc if rc >= 0 else 999), hexs(out)] + et))
+            named = '!' if (not B or fx['named'] is None) else hexs(fx['named'])
+            qs.append(' '.join(['lsokn', hexs(root), hexs(keep), named, str(rc if rc >= 0 else 999), hexs(out)] + et))
     ans = common.run_driver(drv, qs)
     k = 0
     for c, fx in zip(cases, fxs):
@@ -246,7 +264,7 @@ def evaluate(ctx, cases, res, impl=None):
                 res.disagreements.append({'case': cc, 'model': m, 'impl': impl_s,
                                           'stderr': err[-200:].decode('latin1')})
             if ok != '1':
-                sig = classify(fx, B, rc, out, bd)
+                sig = classify(fx, B, rc, out, fx['named'] if B else None, bd)
                 res.oracle_failures.append({
                     'case': cc, 'signature': sig,
                     'what': 'robsd-ls -m %s%s printed a listing that is not exactly the qualifying directories in '
